@@ -9,7 +9,7 @@ SPEC = {
                   ('pkg/secretstore', 'harness/secretstore/zz_verif_c11_test.go')],
         'model_module': 'Model.C11_Keys', 'shard': 100, 'timeout': 900,
     }],
-    'rule': 'concurrent first use (8 goroutines on a fresh store, oracle only: everyone is handed the keys the store keeps); random histories over 2-3 fresh real SecretStores: account / proof key, contact group with another store\'s account '
+    'rule': 'concurrent first use (8 goroutines on a fresh store, oracle only: everyone is handed the keys the store keeps); random histories over 2-3 fresh real SecretStores (each on its own datastore, closed and reopened on it before about every fourth operation: a restart must be invisible): account / proof key, contact group with another store\'s account '
             '(both directions), member/device pairs in account, contact and multi-member groups, export, import of another store\'s '
             'export (plain, swapped, same key twice) at any point, malformed / empty / RSA / secp256k1 blobs; results are compared '
             'with the model up to renaming of keys (numbered by first appearance); non-trivial = history with a contact group, '
